@@ -421,17 +421,32 @@ pub fn snapshot_memory(t: &Target, cfg: &DumpCfg, extra: &[(u64, u64)]) -> Vec<(
     let mut ranges: Vec<(u64, u64)> = Vec::new();
     let maps = t.maps_text();
     let mut parsed: Vec<(u64, u64, String)> = Vec::new();
+    let mut names: Vec<String> = Vec::new();
     for l in maps.lines() {
         let mut it = l.split_whitespace();
         if let (Some(r), Some(p)) = (it.next(), it.next()) {
             if let Some((a, b)) = r.split_once('-') {
                 if let (Ok(a), Ok(b)) = (u64::from_str_radix(a, 16), u64::from_str_radix(b, 16)) {
                     parsed.push((a, b, p.to_string()));
+                    names.push(it.nth(3).unwrap_or("").to_string());
                 }
             }
         }
     }
-    let containing = |addr: u64| parsed.iter().find(|(a, b, _)| *a <= addr && addr < *b).cloned();
+    // the line that contains an address; its end is taken to the end of the adjacent lines of the same file (which
+    // the dumper folds into one mapping), and a line that is writable but not readable counts as readable here (a
+    // stack can be such a mapping: it is read through /proc/<pid>/mem)
+    let containing = |addr: u64| {
+        let i = parsed.iter().position(|(a, b, _)| *a <= addr && addr < *b)?;
+        let (a, mut b, p) = parsed[i].clone();
+        let mut j = i + 1;
+        while j < parsed.len() && parsed[j].0 == b && !names[i].is_empty() && names[j] == names[i] {
+            b = parsed[j].1;
+            j += 1;
+        }
+        let p = if p.starts_with("-w") { format!("r{}", &p[1..]) } else { p };
+        Some((a, b, p))
+    };
     // stacks: from the page of each thread's stack pointer to the end of its mapping
     for th in &t.threads {
         let rsp = t.read_u64(th.regs_addr + 80);
